@@ -21,6 +21,26 @@ CHECKS = {
             "4 C05"),
 }
 
+CHECKS["C14"] = ("model_checking",
+    "TLA+ spec Headers.tla (ordered case-insensitive multimap) model-checked by TLC; exhaustive operation-sequence "
+    "enumeration on the real HeaderList validated against the spec by TLC",
+    "MC_Headers explores every operation sequence to depth 6 on collections of up to 4 fields over a 3-name x 2-case "
+    "pool and checks Subsequence / Partition / OnlyIffOne after every operation. The real HeaderList is driven through "
+    "every sequence of 18 operation instances to depth 4 (quick) / 5 (thorough) and random depth-12 sequences; TLC "
+    "compares returned values and the whole list after each call with Headers!OpStep. Generated requests check that "
+    "the handler-visible header list is the list sent minus consumed framing fields; every AsciiString constructor is "
+    "checked on ASCII and non-ASCII input.",
+    "Trusted: TLC; the name pool (3 names x 2 cases) is assumed representative of all ASCII names.", "4 C14")
+CHECKS["C03"] = ("model_checking",
+    "TLA+ spec Framing.tla (RFC 7230 3.3.3 classification, digit-tuple lengths) + Conn.tla; generated header "
+    "multisets and pipelined wires run through the real reader, every recorded outcome validated by TLC",
+    "Framing!Classify is written from RFC 7230 section 3.3.3 and the property text. The cross product of method class x "
+    "Content-Length multiset x Transfer-Encoding multiset x Expect and random header multisets go through "
+    "read_http_request; wires of 1..8 messages (bodies that look like requests, ambiguous framing) are read back under "
+    "random fragmentation and TLC checks NoSmuggle (requests returned are a prefix of messages sent, bodies byte-exact) "
+    "and RejectNotIgnore (invalid framing ends the sequence with the matching error).",
+    "Trusted: TLC; bodies compared by length + 31-bit digest; case variants of coding names are a free zone.", "4 C03")
+
 NOT_APPLICABLE = {}
 
 
